@@ -40,6 +40,23 @@ def body(data, hist):
 
     def pick(seq, label):
         return seq[data.draw(st.integers(0, len(seq) - 1), label=label)]
+    if data.draw(st.integers(0, 2), label='same_commit_pair') == 0:
+        # a development branch that was just opened from the previous one:
+        # two adjacent destinations at the same commit, so that the later
+        # integration branch is a fast-forward of the earlier one
+        import re
+        devs_ = [n for n in w.chain if n in w.heads() and
+                 re.match(r'development/\d+\.\d+$', n)]
+        if devs_:
+            b_ = pick(devs_, 'scp')
+            ma_, mi_ = b_.split('/')[1].split('.')
+            new_ = 'development/%s.%d' % (ma_, int(mi_) + 1)
+            if new_ not in w.heads():
+                hist.apply({'op': 'admin', 'kind': 'create_branch',
+                            'args': {'branch': new_}})
+                hist.apply({'op': 'drain'})
+                if new_ in w.heads():
+                    hist.flags.add('c15_same_commit_pair')
     dests = sorted(n for n in w.heads() if is_dest(n) and
                    not n.startswith('hotfix/'))
     # target PR on a destination that has later targets
